@@ -1,5 +1,6 @@
 //! Conformance harness: drives the real code built from /repo's working tree (hooks on) from
 //! TLC-generated behaviours, and records real executions for trace validation.
+mod agg;
 mod engine;
 mod gadgets;
 mod jsoncaps;
@@ -45,6 +46,8 @@ fn main() -> Result<()> {
         "commit-replay" => provers::commit_replay(&args[2], &args[3], seed()),
         "pub-commit-replay" => provers::pub_commit_replay(&args[2], &args[3], seed()),
         "shuffle-record" => provers::shuffle_record(&args[2], args[3].parse()?, args[4].parse()?, args[5].parse()?, seed()),
+        "recursion-replay" => agg::recursion_replay(&args[2], &args[3]),
+        "aggregator-replay" => agg::aggregator_replay(&args[2], &args[3], &args[4]),
         "leafapi-replay" => leafapi::api_replay(&args[2], &args[3], seed(), args[4].parse()?),
         "merkle-replay" => leafapi::merkle_replay(&args[2], &args[3], seed()),
         _ => Err(anyhow!("unknown subcommand {cmd}")),
